@@ -113,8 +113,8 @@ Definition outcome_eqb (a b : outcome) : bool :=
 
 (* the implementation's count equals the exact one, or is one below it where the exact sum is a whole number
    reached through non-dyadic period lengths (binary64 accumulation, D20) *)
-Definition count_agrees (exact impl : Z) (near : bool) : bool :=
-  (impl =? exact) || (near && (impl =? exact - 1)).
+Definition count_agrees (exact impl : Z) (near : unit -> bool) : bool :=
+  if impl =? exact then true else if impl =? exact - 1 then near tt else false.
 
 Record case := mkcase {
   k_family : family; k_period : period; k_electric : bool; k_ctx : ctx;
@@ -142,11 +142,12 @@ Definition check_case (c : case) : bool :=
   | None => outcome_agrees c (dataclass p (k_family c) (k_period c) (k_electric c) (k_ctx c) fr)
   | Some ic =>
       let ex := compute_counts p is_rep fr in
-      let '(nv, nm, nt) := near_flags p is_rep fr in
+      let rows := f_rows fr in
+      (* the near-integer test is evaluated only when the counts differ by one *)
       opt_eqb Z.eqb (c_total ex) (c_total ic)
-      && count_agrees (c_valid ex) (c_valid ic) nv
-      && (is_rep || count_agrees (c_meter ex) (c_meter ic) nm)
-      && count_agrees (c_temp ex) (c_temp ic) nt
+      && count_agrees (c_valid ex) (c_valid ic) (fun _ => near_integer_from_below (valid_row p is_rep) rows)
+      && (is_rep || count_agrees (c_meter ex) (c_meter ic) (fun _ => near_integer_from_below valid_meter_row rows))
+      && count_agrees (c_temp ex) (c_temp ic) (fun _ => near_integer_from_below (valid_temp_row p) rows)
       && outcome_agrees c (dataclass_with_counts p (k_family c) (k_period c) (k_electric c) (k_ctx c) fr ic)
   end.
 
